@@ -58,9 +58,10 @@ trait Job: Send + Sync {
     fn name(&self) -> String;
     fn cost(&self) -> u64;
     fn n_inputs(&self) -> usize;
+    fn attacks(&self) -> bool;
     /// circuit size (0 = synthesis with an unknown witness panics; the driver reports that)
     fn min_k(&self) -> u32;
-    fn run(&self, thorough: bool, seed: u64, atk: &AtkOpts, k: u32, only_input: Option<usize>, rep: &mut Report) -> (String, OpStats, AtkStats, u32);
+    fn run(&self, thorough: bool, seed: u64, atk: &AtkOpts, k: u32, only_input: Option<usize>, phase: u8, rep: &mut Report) -> (String, OpStats, AtkStats, u32);
 }
 
 impl<V: Cv> Job for Task<V> {
@@ -73,11 +74,14 @@ impl<V: Cv> Job for Task<V> {
     fn n_inputs(&self) -> usize {
         self.inputs.len()
     }
+    fn attacks(&self) -> bool {
+        self.attack
+    }
     fn min_k(&self) -> u32 {
         let rel = mzv::engines::catalogue::OpRel(self.entry.clone());
         catch_any(|| midnight_zk_stdlib::MidnightCircuit::new(&rel, midnight_proofs::circuit::Value::unknown(), midnight_proofs::circuit::Value::unknown(), Some(8)).min_k()).unwrap_or(0)
     }
-    fn run(&self, thorough: bool, seed: u64, atk: &AtkOpts, k: u32, only_input: Option<usize>, rep: &mut Report) -> (String, OpStats, AtkStats, u32) {
+    fn run(&self, thorough: bool, seed: u64, atk: &AtkOpts, k: u32, only_input: Option<usize>, phase: u8, rep: &mut Report) -> (String, OpStats, AtkStats, u32) {
         let name = self.entry.name();
         let mut opts = OpOptions::new("C06", thorough);
         opts.real_k_max = atk.real_k_max;
@@ -89,7 +93,8 @@ impl<V: Cv> Job for Task<V> {
             None => self.inputs.clone(),
         };
         // 2. encoding cross-check (inputs and reference outputs)
-        for inp in &inputs {
+        for inp in inputs.iter().filter(|_| phase != 2) {
+            rep.nontrivial(&(name.clone(), format!("{inp:?}")));
             let mut vals = inp.clone();
             if let Some(o) = self.entry.op.eval::<V>(inp) {
                 vals.extend(o);
@@ -126,19 +131,19 @@ impl<V: Cv> Job for Task<V> {
             }
         }
         // 1. driver (every output edit re-evaluates the whole table: fewer positions on big circuits)
-        if k >= 18 {
+        if k >= 16 {
             opts.max_positions = 1;
         } else if k >= 14 {
             opts.max_positions = 2;
         }
         let t_d = std::time::Instant::now();
-        let st = check_op(&self.entry, &inputs, &opts, seed, rep);
+        let st = if phase != 2 { check_op(&self.entry, &inputs, &opts, seed, rep) } else { OpStats::default() };
         if std::env::var("MZV_C06_TIMING").is_ok() {
             eprintln!("[c06-timing] {name}: driver {:.1}s", t_d.elapsed().as_secs_f64());
         }
         // 3. malicious prover
         let mut a = AtkStats::default();
-        if self.attack && k > 0 && (k < 18 || thorough) {
+        if phase != 1 && self.attack && k > 0 && (k < 18 || thorough) {
             for (i, inp) in inputs.iter().enumerate() {
                 let idx = only_input.unwrap_or(0) + i;
                 a.add(&attack_stage::<V>(&self.entry, inp, idx, k, atk, seed, self.hints, rep));
@@ -649,25 +654,32 @@ fn main() {
     let seed = ctx.seed;
     let only_idx = only.as_ref().map(|(_, i)| *i).filter(|i| *i != usize::MAX).or(ctx.extra.get("input").and_then(|v| v.parse().ok()));
     // one unit of work per (entry, input): the expensive entries would otherwise serialise the run
-    let mut units: Vec<(usize, usize, u64)> = vec![];
+    let ks: Vec<u32> = jobs.par_iter().map(|j| j.min_k()).collect();
+    // (job, input, cost, phase): on big circuits the driver stage and the malicious-prover stage of
+    // the same input are separate units (they are independent and each takes minutes)
+    let mut units: Vec<(usize, usize, u64, u8)> = vec![];
     for (ji, j) in jobs.iter().enumerate() {
         for i in 0..j.n_inputs() {
             if only_idx.map(|x| x == i).unwrap_or(true) {
-                units.push((ji, i, j.cost()));
+                if ks[ji] >= 14 && j.attacks() {
+                    units.push((ji, i, j.cost(), 1));
+                    units.push((ji, i, j.cost(), 2));
+                } else {
+                    units.push((ji, i, j.cost(), 0));
+                }
             }
         }
     }
     units.sort_by_key(|u| (std::cmp::Reverse(u.2), u.0, u.1));
     // circuit sizes first: the largest circuits (k >= 18: gigabytes per MockProver) run in a
     // second phase on a small pool so that memory stays bounded
-    let ks: Vec<u32> = jobs.par_iter().map(|j| j.min_k()).collect();
-    let run_units = |us: &[(usize, usize, u64)]| -> Vec<(Report, (String, OpStats, AtkStats, u32), f64)> {
+    let run_units = |us: &[(usize, usize, u64, u8)]| -> Vec<(Report, (String, OpStats, AtkStats, u32), f64)> {
         us.par_iter()
-            .map(|(ji, i, _)| {
+            .map(|(ji, i, _, phase)| {
                 let mut part = rep.fork();
                 let t0 = thread_cpu();
                 // a panic that escapes the stages is a harness problem: inconclusive, never a verdict
-                let r = match catch_any(|| jobs[*ji].run(thorough, seed, &atk, ks[*ji], Some(*i), &mut part)) {
+                let r = match catch_any(|| jobs[*ji].run(thorough, seed, &atk, ks[*ji], Some(*i), *phase, &mut part)) {
                     Ok(r) => r,
                     Err(p) => {
                         let name = jobs[*ji].name();
@@ -733,7 +745,8 @@ fn main() {
                 rep.inconclusive(&format!("no honest run on {c}"));
             }
         }
-        rep.min_nontrivial = if thorough { 400 } else { 120 };
+        // about half of the planned (entry, input) cases: 1302 thorough / 349 quick at the time of writing
+        rep.min_nontrivial = if thorough { 600 } else { 150 };
     }
     rep.finish();
 }
